@@ -72,6 +72,68 @@ func component(adj [][]bool, s int) map[int]bool {
 	return seen
 }
 
+// isTree reports whether the (connected) graph has exactly n-1 links.
+func isTree(adj [][]bool) bool { return Connected(adj) && countLinks(adj) == len(adj)-1 }
+
+// bfsPath returns a shortest path from a to b as the list of nodes after a
+// (so its length is the distance), or nil if b is unreachable.
+func bfsPath(adj [][]bool, a, b int) []int {
+	if a == b {
+		return []int{}
+	}
+	prev := map[int]int{a: -1}
+	q := []int{a}
+	for len(q) > 0 {
+		x := q[0]
+		q = q[1:]
+		for y := range adj {
+			if adj[x][y] {
+				if _, ok := prev[y]; !ok {
+					prev[y] = x
+					q = append(q, y)
+				}
+			}
+		}
+	}
+	if _, ok := prev[b]; !ok {
+		return nil
+	}
+	var rev []int
+	for x := b; x != a; x = prev[x] {
+		rev = append(rev, x)
+	}
+	out := make([]int, len(rev))
+	for i := range rev {
+		out[i] = rev[len(rev)-1-i]
+	}
+	return out
+}
+
+// withinLimitsOnTree: on a tree the announcement of origin m can only reach n
+// along the unique path; every agent before n must forward (distance < its
+// limit) and n must accept (distance <= its limit).
+func (c *Case) withinLimitsOnTree(adj [][]bool, m, n int) bool {
+	p := bfsPath(adj, m, n)
+	if p == nil {
+		return false
+	}
+	for j, x := range p {
+		d := j + 1
+		l := c.EffLimit(x)
+		if l == 0 {
+			continue
+		}
+		if x == n {
+			if d > l {
+				return false
+			}
+		} else if d >= l {
+			return false
+		}
+	}
+	return true
+}
+
 // EffLimit is the hop limit node i runs with (0 = none).
 func (c *Case) EffLimit(i int) int {
 	l := 0
@@ -308,8 +370,16 @@ func MonitorC12(c *Case, o *Obs) []Finding {
 			}
 		}
 	}
-	// completeness: every node announced after the topology was final, the graph is connected, limits do not cut
-	if !Connected(adj) || c.limitsCut() {
+	// completeness: every node announced after the topology was final and the graph is connected. With hop limits
+	// that can cut the mesh the expectation is order-independent only on a tree (unique paths): there an agent must
+	// learn an origin exactly when every agent on the way forwards (distance < its limit) and it accepts itself
+	// (distance <= its limit) -- this includes the boundary limit = distance.
+	if !Connected(adj) {
+		return out
+	}
+	cut := c.limitsCut()
+	tree := isTree(adj)
+	if cut && !tree {
 		return out
 	}
 	lastTopo := -1
@@ -347,6 +417,9 @@ func MonitorC12(c *Case, o *Obs) []Finding {
 			if n == m {
 				continue
 			}
+			if cut && !c.withinLimitsOnTree(adj, m, n) {
+				continue
+			}
 			for _, w := range want {
 				found := false
 				for _, e := range o.Final[n].Entries {
@@ -359,7 +432,11 @@ func MonitorC12(c *Case, o *Obs) []Finding {
 					if w.Kind == KAgent {
 						sig = "missing-presence"
 					}
-					out = append(out, Finding{sig, fmt.Sprintf("node %d has no entry kind %d id %d of origin %d after quiescence", n, w.Kind, w.ID, m)})
+					extra := ""
+					if cut {
+						extra = fmt.Sprintf(" (distance %d, max_hops of node %d is %d: within the limit)", len(bfsPath(adj, m, n)), n, c.EffLimit(n))
+					}
+					out = append(out, Finding{sig, fmt.Sprintf("node %d has no entry kind %d id %d of origin %d after quiescence%s", n, w.Kind, w.ID, m, extra)})
 				}
 			}
 		}
@@ -419,8 +496,12 @@ func MonitorC13(c *Case, o *Obs) []Finding {
 // the announcement.
 func MonitorC14(c *Case, o *Obs) []Finding {
 	var out []Finding
-	if len(o.snaps) == 0 || c.limitsCut() {
+	if len(o.snaps) == 0 {
 		return nil
+	}
+	out = append(out, monitorC14Accept(c, o)...)
+	if c.limitsCut() {
+		return out
 	}
 	for ai, op := range c.Ops {
 		if op.K != "announce" || !o.Steps[ai].Applied {
@@ -505,10 +586,134 @@ func MonitorC15(c *Case, o *Obs) []Finding {
 	} else {
 		check("final", o.Final)
 	}
+	// the recorded path can lie: what counts is how far the agent really is from the origin. For every entry that
+	// stems from an announcement made after the last link was lost (all its copies travelled over links that still
+	// exist), the agent must be within max_hops of the origin in the link graph.
+	if len(o.snaps) > 0 {
+		lastDisc := -1
+		for i, op := range c.Ops {
+			if op.K == "disconnect" && o.Steps[i].Applied {
+				lastDisc = i
+			}
+		}
+		annSeq := map[key]int{} // (origin, seq) -> announce step
+		for i, op := range c.Ops {
+			if op.K == "announce" && o.Steps[i].Applied && i > lastDisc {
+				annSeq[key{op.A, o.Snap(i)[op.A].Seq}] = i
+			}
+		}
+		reported := map[[3]int]bool{}
+		for si := range o.Steps {
+			adj := o.AdjAt(si)
+			for n, nd := range o.Snap(si) {
+				l := c.EffLimit(n)
+				if l <= 0 {
+					continue
+				}
+				for _, e := range nd.Entries {
+					ai, ok := annSeq[key{e.Origin, e.Seq}]
+					if e.Origin == n || !ok || ai > si || reported[[3]int{n, e.Origin, int(e.Seq)}] {
+						continue
+					}
+					d := len(bfsPath(adj, n, e.Origin))
+					if d > l {
+						reported[[3]int{n, e.Origin, int(e.Seq)}] = true
+						out = append(out, Finding{"stored-beyond-max-hops-by-distance", fmt.Sprintf("after step %d: node %d (max_hops %d) is %d hops from origin %d but stores kind %d id %d of its announcement #%d (made at step %d, after the last link loss) with recorded path %v", si, n, l, d, e.Origin, e.Kind, e.ID, e.Seq, ai, e.Path)})
+					}
+				}
+			}
+		}
+	}
 	for _, m := range o.Log {
 		l := c.EffLimit(m.From)
 		if l > 0 && len(m.Adv.Path) > l {
 			out = append(out, Finding{"forwarded-beyond-max-hops", fmt.Sprintf("step %d: node %d (max_hops %d) sent (%d,%d) to %d with a %d-hop path %v", m.Step, m.From, l, m.Adv.Origin, m.Adv.Seq, m.To, len(m.Adv.Path), m.Adv.Path)})
+		}
+	}
+	return out
+}
+
+// monitorC14Accept: no earlier frame may make an agent ignore, or fail to
+// forward, a genuine copy of an announcement. The first copy of (origin, seq)
+// handed to agent n that n may accept (n not in seen-by, path within n's
+// max_hops) must leave n holding every route of the copy at a sequence >= seq,
+// and, if n is not at its limit, must be forwarded to every neighbour that is
+// neither the sender nor in seen-by. An earlier over-limit copy excuses n only
+// if its sender was entitled to send it (path within the SENDER's limit: the
+// two agents are configured with different limits); a copy longer than its
+// sender's own limit (e.g. an over-long replay) is no excuse.
+func monitorC14Accept(c *Case, o *Obs) []Finding {
+	var out []Finding
+	type nk struct {
+		n int
+		k key
+	}
+	good := map[nk]bool{}
+	excused := map[nk]bool{}
+	perStepSends := map[int][]MsgObs{}
+	for _, m := range o.Log {
+		perStepSends[m.Step] = append(perStepSends[m.Step], m)
+	}
+	for si, st := range o.Steps {
+		if c.Ops[si].K != "deliver" || !st.Applied || st.DelOrigin >= c.N {
+			continue
+		}
+		n := st.DelTo
+		if contains(st.DelSeenBy, n) || st.DelOrigin == n {
+			continue
+		}
+		id := nk{n, key{st.DelOrigin, st.DelSeq}}
+		l := c.EffLimit(n)
+		plen := len(st.DelPath)
+		if l > 0 && plen > l {
+			if ls := c.EffLimit(st.DelFrom); ls == 0 || plen <= ls {
+				excused[id] = true
+			}
+			continue
+		}
+		if good[id] {
+			continue
+		}
+		good[id] = true
+		if excused[id] {
+			continue
+		}
+		snap := o.Snap(si)
+		if snap == nil {
+			continue
+		}
+		ignored := false
+		for _, r := range st.DelRoutes {
+			ok := false
+			var have []EntryObs
+			for _, e := range snap[n].Entries {
+				if e.Kind == r.Kind && e.ID == r.ID && e.Origin == st.DelOrigin {
+					have = append(have, e)
+					if e.Seq >= st.DelSeq {
+						ok = true
+					}
+				}
+			}
+			if !ok {
+				ignored = true
+				out = append(out, Finding{"announcement-ignored", fmt.Sprintf("step %d: node %d (max_hops %d) was handed the first acceptable copy of (%d,%d) (path %v, seen-by %v) but holds kind %d id %d of origin %d as %+v", si, n, l, st.DelOrigin, st.DelSeq, st.DelPath, st.DelSeenBy, r.Kind, r.ID, st.DelOrigin, have)})
+				break
+			}
+		}
+		if ignored || (l > 0 && plen >= l) {
+			continue
+		}
+		adj := o.AdjAt(si)
+		got := map[int]bool{}
+		for _, m := range perStepSends[si] {
+			if m.From == n && m.Adv.Origin == st.DelOrigin && m.Adv.Seq == st.DelSeq {
+				got[m.To] = true
+			}
+		}
+		for p := 0; p < c.N && adj != nil; p++ {
+			if adj[n][p] && p != st.DelFrom && p != n && !contains(st.DelSeenBy, p) && !got[p] {
+				out = append(out, Finding{"announcement-not-forwarded", fmt.Sprintf("step %d: node %d accepted the first copy of (%d,%d) (path %v, max_hops %d) but did not forward it to neighbour %d", si, n, st.DelOrigin, st.DelSeq, st.DelPath, l, p)})
+			}
 		}
 	}
 	return out
